@@ -170,7 +170,7 @@ Proof. exact line_integral. Qed.
 (* the classes whose marginal cost is continuous everywhere: Device, PVDevice, CDevice, CDevice2 (one range), IDevice
    (natural exponents), IDevice2, GDevice - for ANY two flows of the right length (in bounds or not), any price.
    SDevice: below, at every flow off the charge/discharge kink and along every segment that does not cross it.
-   PARTIAL for TDevice / multi-range CDevice2 / ADevice: for those only the coordinate form above is proved (the general theorem
+   TDevice: likewise below.  PARTIAL for multi-range CDevice2 / ADevice: for those only the coordinate form above is proved (the general theorem
    applies once continuity of their marginal cost is shown, which is not done here). *)
 Theorem C01_total_derivative_smooth_classes : forall n b cb k (p x : list R), length p = n -> length x = n -> smooth_kind k cb n ->
   dir_at (fun s => leaf_cost (Build_leafdev n b cb k) s p) (leaf_deriv (Build_leafdev n b cb k) x p) x.
@@ -213,3 +213,15 @@ Theorem C01_sdevice_line_integral : forall n b cb q (x y p : list R), length x =
   is_RInt (fun t => dot (leaf_deriv (Build_leafdev n b cb (KS q)) (seg x y t) p) (vsub y x)) 0 1
           (leaf_cost (Build_leafdev n b cb (KS q)) y p - leaf_cost (Build_leafdev n b cb (KS q)) x p).
 Proof. exact sdevice_line_integral. Qed.
+
+(* ---- thermal: the same, off the direction kink (efficiency 1, or no slot flow exactly 0). Proofs/TotalThermal.v ---- *)
+From DK.Proofs Require Import TotalThermal.
+Theorem C01_tdevice_total_derivative : forall n b cb q (x p : list R), length x = n -> length p = n -> length (tp_ext q) = n ->
+  smooth_at (tp_eff q) x ->
+  dir_at (fun s => leaf_cost (Build_leafdev n b cb (KT q)) s p) (leaf_deriv (Build_leafdev n b cb (KT q)) x p) x.
+Proof. exact tdevice_total_derivative. Qed.
+Theorem C01_tdevice_line_integral : forall n b cb q (x y p : list R), length x = n -> length y = n -> length p = n ->
+  length (tp_ext q) = n -> (tp_eff q = 1 \/ (forall k, (k < length x)%nat -> 0 < nth k x 0 * nth k y 0)) ->
+  is_RInt (fun t => dot (leaf_deriv (Build_leafdev n b cb (KT q)) (seg x y t) p) (vsub y x)) 0 1
+          (leaf_cost (Build_leafdev n b cb (KT q)) y p - leaf_cost (Build_leafdev n b cb (KT q)) x p).
+Proof. exact tdevice_line_integral. Qed.
